@@ -41,6 +41,7 @@ from vermouth.molecule import Molecule
 from vermouth.processors.repair_graph import RepairGraph
 
 from pbt import c04_isoshape
+from pbt import c04_requested
 
 PROPERTY = 'C04'
 LEVEL = 'exploration'
@@ -814,8 +815,8 @@ PARTS = [
                  'extra-stands-in': 0.008, 'reordered': 0.4, 'heavy-renamed': 0.3, 'atoms-rebuilt': 0.2, 'input-disconnected': 0.1}),
 ]
 
-PARTS = PARTS + c04_isoshape.PARTS
-RULE = RULE + ' ' + c04_isoshape.RULE_TEXT
+PARTS = PARTS + c04_isoshape.PARTS + c04_requested.PARTS
+RULE = RULE + ' ' + c04_isoshape.RULE_TEXT + ' ' + c04_requested.RULE_TEXT
 
 _preload_main = preload
 
@@ -823,3 +824,4 @@ _preload_main = preload
 def preload():   # noqa: F811
     _preload_main()
     c04_isoshape.preload()
+    c04_requested.preload()
